@@ -19,13 +19,15 @@ mod verif_kani_datetime {
 
     /// the postcondition: from_str(s) == spec_datetime(s), field by field
     fn check(bytes: &[u8]) {
-        check_cov(bytes, true)
+        let accepted = check_cov(bytes, true);
+        kani::cover!(accepted, "some string is accepted");
     }
 
-    fn check_cov(bytes: &[u8], expect_accept: bool) {
+    /// returns whether from_str accepted (false for non-UTF-8 bytes, which cannot be a &str)
+    fn check_cov(bytes: &[u8], _expect_accept: bool) -> bool {
         let s = match core::str::from_utf8(bytes) {
             Ok(s) => s,
-            Err(_) => return,
+            Err(_) => return false,
         };
         let got = Datetime::from_str(s);
         let want = spec_datetime(bytes);
@@ -40,10 +42,8 @@ mod verif_kani_datetime {
             (Ok(_), None) => assert!(false, "from_str accepts a string the date-time grammar rejects"),
             (Err(_), Some(_)) => assert!(false, "from_str rejects a string the date-time grammar accepts"),
         }
-        if expect_accept {
-            kani::cover!(got.is_ok(), "some string is accepted");
-        }
         kani::cover!(got.is_err(), "some string is rejected");
+        got.is_ok()
     }
 
     #[kani::proof]
@@ -85,6 +85,41 @@ mod verif_kani_datetime {
         let a: [u8; 10] = kani::any();
         check(&a);
     }
+
+    fn assume_ascii(bytes: &[u8]) {
+        let mut i = 0;
+        while i < bytes.len() {
+            kani::assume(bytes[i] < 0x80);
+            i += 1;
+        }
+    }
+
+    // ASCII-only variants (the date-time alphabet is ASCII; non-ASCII bytes are covered by the
+    // fully symbolic harnesses up to 10 bytes): every ASCII string of the given length
+    #[kani::proof]
+    #[kani::unwind(10)]
+    fn k3a_time8() { let a: [u8; 8] = kani::any(); assume_ascii(&a); check(&a); }
+    #[kani::proof]
+    #[kani::unwind(11)]
+    fn k3a_len9() { let a: [u8; 9] = kani::any(); assume_ascii(&a); check_cov(&a, false); }
+    #[kani::proof]
+    #[kani::unwind(12)]
+    fn k3a_len10() { let a: [u8; 10] = kani::any(); assume_ascii(&a); check(&a); }
+    #[kani::proof]
+    #[kani::unwind(13)]
+    fn k3a_len11() { let a: [u8; 11] = kani::any(); assume_ascii(&a); check(&a); }
+    #[kani::proof]
+    #[kani::unwind(14)]
+    fn k3a_len12() { let a: [u8; 12] = kani::any(); assume_ascii(&a); check(&a); }
+    #[kani::proof]
+    #[kani::unwind(21)]
+    fn k3a_len19() { let a: [u8; 19] = kani::any(); assume_ascii(&a); check(&a); }
+    #[kani::proof]
+    #[kani::unwind(22)]
+    fn k3a_len20() { let a: [u8; 20] = kani::any(); assume_ascii(&a); check(&a); }
+    #[kani::proof]
+    #[kani::unwind(27)]
+    fn k3a_len25() { let a: [u8; 25] = kani::any(); assume_ascii(&a); check(&a); }
 
     // local time with fractional seconds: fixed valid prefix, symbolic fraction (bounded: prefix fixed)
     fn frac<const K: usize>() {
